@@ -536,6 +536,7 @@ def correspond(ctx):
     stream_multi(ctx, programs)
     stream_mapping(ctx, programs)
     stream_embed(ctx, programs)
+    stream_text(ctx, programs)
     ctx.cov['programs'] = len(programs)
     ctx.cov['program_names'] = sorted(programs)
 
@@ -1840,6 +1841,91 @@ def embed_search(ctx, t_end, seeds):
 
 
 # ------------------------------------------------------------------------------------------------
+# the whole input string of smarts(): white-space split and the CXSMARTS radical block
+# ------------------------------------------------------------------------------------------------
+
+CX_BASES = ['[C]', '[C][O]', '[C;D2][N,O;h1]', '[C][N][O]', '[C][C][C][C;D1][O]', 'CC(C)C', 'C1CC1', '[A][M]', '[C:5][C:2]', '[O;D1;x0;z2]=[C]', 'C', '[C;M][C]', '[C+]-[O-]', '[13C]',
+            '[C&D2]', '[C', '(', 'C1CC', '']
+CX_BLOCKS = ['|^1:0|', '|^1:1|', '|^1:0,1|', '|^2:0|', '|^7:1|', '|^3:0,^1:1|', '|^1:0,^1:0|', '|^1:2|', '|^1:3|', '|^1:99|', '|^1:00|', '|^1:01|',
+             '|^8:0|', '|^0:0|', '|^1:|', '|^1:0,|', '|^1:0,,1|', '|^1:,0|', '|^1:a|', '|^11:0|', '|^:0|', '|^1;0|', '|^1:0', '^1:0|', '^1:0', '|', '||',
+             '|^1:0|x', 'x|^1:0|', '|f:0.1,^1:0|', '|^1:0,f:0.1|', '|$_AV:;$,^1:1|', '|^1:0^1:1|', '|^1:0 ^1:1|', '|^1:99999999999999999999|',
+             '|^1:0,1,2,3|', '|^1:1,0|', '|^^1:0|', '|^1:^1:0|', '|^1:0|^1:1|', '|c:0,^1:1,r|', '|^1:-1|', '|^1:+1|', '|^1:1_0|', '|^1:1.0|']
+CX_SEPS = [' ', '  ', '\t', '\n', ' \t ', '\x0b', '\x0c', '\r', '\x1c', '\x1f', '\xa0', '\u2003', '\u3000', '\x85']
+
+
+def cx_strings(ctx):
+    rng = ctx.rng
+    out = ['', ' ', '\n', ' \t', '[C] ', ' [C]', '\n[C]\n', '[C] |^1:0| |^1:1|', '[C][C] |^1:0| |^1:1|', '[C] x |^1:0|', '[C] [C]', '[C]\x00|^1:0|',
+           '[C]|^1:0|', '[C] | ^1:0|', '[C][C] |^1:0 |', '|^1:0| [C]']
+    for b in CX_BASES:
+        for c in CX_BLOCKS:
+            out.append(b + ' ' + c)
+    for _ in range(300 if ctx.quick else 3000):
+        b = rng.choice(CX_BASES[:14])
+        u = rng.random()
+        if u < 0.6:      # documented blocks: one or more `^k:i,j,...` groups, maybe other CX fields around
+            groups = ['^%d:%s' % (rng.randint(1, 7), ','.join(str(rng.randint(0, 4)) for _ in range(rng.randint(1, 3)))) for _ in range(rng.randint(1, 3))]
+            if rng.random() < 0.3:
+                groups.insert(rng.randrange(len(groups) + 1), rng.choice(['f:0.1', 'c:0', '$;$', 'r', 'm:1:0.1']))
+            c = '|' + ','.join(groups) + '|'
+        else:            # single-edit corruption of a documented block
+            c = list(rng.choice(CX_BLOCKS[:12]))
+            i = rng.randrange(len(c) + 1)
+            r = rng.random()
+            if r < 0.4 and c:
+                del c[min(i, len(c) - 1)]
+            elif r < 0.8:
+                c.insert(i, rng.choice('^|:,0189 a'))
+            else:
+                c[min(i, len(c) - 1)] = rng.choice('^|:,0189')
+            c = ''.join(c)
+        out.append(rng.choice(['', '', ' ']) + b + rng.choice(CX_SEPS) + c + rng.choice(['', '', ' ', '\n', ' x']))
+    return list(dict.fromkeys(out))
+
+
+def check_cx(text):
+    """documented: `pattern |^k:i,j,...|` marks exactly the atoms i, j, ... (0-based, in writing order) as radicals. Decided only for a
+    chain of documented non-metal bracket atoms without maps followed by one space and a block of well-formed radical groups with indices
+    in range. None = fine or undecided, else a description."""
+    import re
+    from chython import smarts
+    mt = re.fullmatch(r'((?:\[[^\]\[]*\])+) \|(\^[1-7]:\d+(?:,\d+)*(?:,\^[1-7]:\d+(?:,\d+)*)*)\|', text)
+    if not mt:
+        return None
+    atoms = re.findall(r'\[([^\]]*)\]', mt.group(1))
+    docs = [doc_parse_atom(a) for a in atoms]
+    if any(d is None or d['head'] == 'metal' or d['mapping'] is not None or d['masked'] for d in docs):
+        return None
+    want = {int(x) for g in mt.group(2).split('^')[1:] for x in g.split(':')[1].strip(',').split(',')}
+    if any(i >= len(atoms) for i in want):
+        out = real_smarts_outcome(text)
+        return None if out[0] == 'err' and out[1] == 'IncorrectSmarts' else f'{text!r}: radical index outside the pattern, outcome {out[:2]}'
+    try:
+        q = smarts(text)
+    except Exception as e:
+        return f'{text!r}: documented CX radical block rejected: {type(e).__name__}: {e}'
+    got = {i for i, a in enumerate(q._atoms.values()) if a.is_radical}
+    if len(q._atoms) != len(atoms) or got != want:
+        return f'{text!r}: radical atoms {sorted(got)}, the block names {sorted(want)}'
+    return None
+
+
+def stream_text(ctx, programs):
+    programs.add('chython.smarts (input string: split, CX radical block)')
+    texts = cx_strings(ctx)
+    resp = core.run_driver('C08', [line('st', cps(t)) for t in texts])
+    for t, mresp in zip(texts, resp):
+        real = real_smarts_outcome(t)
+        model = model_smarts_outcome(mresp)
+        ctx.count(('st', t), nontrivial=bool(t.strip()))
+        ctx.dist('st:' + (real[0] if real[0] == 'ok' else real[1]))
+        if real[0] == 'err' and real[1] != 'IncorrectSmarts':
+            ctx.fail(f'C08/reject-kind/{real[1]}', f'smarts({t!r}) raises {real[1]}, not IncorrectSmarts', {'kind': 'reject', 'smarts': t})
+        if model[0] == 'other' or real[:2] != model[:2]:
+            disagree(ctx, 'smarts-input-string', f'{t!r}: real {str(real)[:300]} model {str(model)[:300]}', {'kind': 'cx', 'smarts': t})
+
+
+# ------------------------------------------------------------------------------------------------
 # query atoms built through the API (constructors and setters) from raw scalar / list / tuple arguments
 # ------------------------------------------------------------------------------------------------
 
@@ -2647,6 +2733,12 @@ def search(ctx):
                     break
         except Exception as e:
             ctx.notes.append(f'search on a disagreeing case raised {type(e).__name__}: {e}')
+    # 1b. the CX radical block: the atoms it names, and only they, are radicals
+    for t in [c['smarts'] for c in seeds if c.get('kind') == 'cx'] + cx_strings(ctx):
+        bad = check_cx(t)
+        if bad:
+            ctx.fail('C08/cx-radical-block-misread', bad, {'kind': 'cx', 'smarts': t})
+            break
     # 2a'. whole patterns (ring closures, branches) on cage targets, both paths — own share of the budget
     embed_search(ctx, min(t_end, time.time() + (25 if ctx.quick else 60)), seeds)
     # 2. matching: documented single-atom patterns on small molecules vs the independent attribute computation
@@ -3074,6 +3166,13 @@ def probe(inp):
             n, exp, got = bad[0]
             return True, f'{inp["smarts"]} atom {n}: documented meaning {"match" if exp else "no match"}, get_mapping {"match" if got else "no match"}'
         return False, f'{inp["smarts"]}: get_mapping agrees with the documented meaning on every atom'
+    if kind == 'cx':
+        t = inp['smarts']
+        out = real_smarts_outcome(t)
+        if out[0] == 'err' and out[1] != 'IncorrectSmarts':
+            return True, f'smarts({t!r}) raises {out[1]}'
+        bad = check_cx(t)
+        return bool(bad), bad or f'smarts({t!r}): the radical block is read as documented (or the text is outside the documented form)'
     if kind == 'embed':
         mol, _ = wire.ints_to_mol(inp['mol'], calc=True)
         bad = None
